@@ -5,4 +5,4 @@ CONSTRAINT HighWater
 INVARIANT TypeOK
 POSTCONDITION TraceAccepted
 CHECK_DEADLOCK FALSE
-CONSTANT LeafElemErrAtList = FALSE
+CONSTANT LeafElemErrAtList = TRUE
